@@ -41,3 +41,127 @@ PROPS["C09"] = {
         leg("bq-big", "c09_queue", (2, 2), {"prog": "P1,P2|Q,G|T3", "bounded": 1, "cap": 2, "big": 1}, what="bounded queue with one element per page"),
     ],
 }
+
+# ------------------------------------------------------------------------------------------------ C08
+def _c08():
+    legs = []
+    plain = ["W|W|W", "W|W|t,W", "t|t|W", "W,W|W,t"]
+    rw = ["W|R|U", "U|U|r", "D|W|R", "R|R|W", "U|W|t", "D|U|R", "r|t|W", "R,W|U|r"]
+    for kind in ("spin", "queuing", "mutex", "spec"):
+        for i, pr in enumerate(plain):
+            legs.append(leg("%s-%d" % (kind, i), "c08_mutex", (2, 3), {"kind": kind, "prog": pr}, flags=("-fp", "-hb"), what="%s: %s" % (kind, pr)))
+    for kind in ("spin_rw", "queuing_rw", "rw", "spec_rw"):
+        for i, pr in enumerate(rw):
+            legs.append(leg("%s-%d" % (kind, i), "c08_mutex", (2, 3), {"kind": kind, "prog": pr}, flags=("-fp", "-hb"), what="%s: %s" % (kind, pr),
+                            weight=3.0 if kind == "queuing_rw" else 1.0))
+        legs.append(leg("%s-4t" % kind, "c08_mutex", (1, 2), {"kind": kind, "prog": "W|R|R|U"}, flags=("-fp", "-hb"), what="%s: four threads" % kind))
+    return legs
+PROPS["C08"] = {
+    "explanation": "2-4 threads run short lock programs (write/read sections, try-acquire, upgrade, downgrade) on one real mutex of each kind; "
+                   "oracles: holder bookkeeping inside the critical sections, try/upgrade/downgrade truthfulness via a version counter, "
+                   "queue-order service for the queuing locks (order of RMWs on the tail word vs order of section entry, conflicting requests only), "
+                   "happens-before vector clocks following the actual memory_order arguments for 'visible to the next holder', deadlock/livelock detection for lost hand-offs. "
+                   "Speculative mutexes are explored on their non-transactional fall-back path (hardware transactions cannot be scheduled).",
+    "legs": _c08(),
+}
+
+# ------------------------------------------------------------------------------------------------ C13
+PROPS["C13"] = {
+    "explanation": "2-3 threads push/emplace/try_pop on one real concurrent_priority_queue (which operations share an aggregator batch is decided by the "
+                   "interleaving); every history is checked by brute force against a multiset reference (a pop must return a maximum at its linearization point, "
+                   "ties in any order); fault legs make the k-th element copy throw and require exactly one caller to see it and the history to stay linearizable.",
+    "legs": [
+        leg("push-pop-pop", "c13_pq", (2, 3), {"pre": "50,30", "prog": "P90|G|G"}, what="push races two pops"),
+        leg("mixed", "c13_pq", (2, 2), {"pre": "50,30", "prog": "P90,G|E31,G|G"}, what="two ops per thread, duplicates of one priority"),
+        leg("empty", "c13_pq", (2, 3), {"pre": "", "prog": "P10|G|G,G"}, what="pops on a (nearly) empty queue"),
+        leg("monotone", "c13_pq", (2, 2), {"pre": "10,20,30", "prog": "M40,M50|G,G|P60"}, what="monotone run of pushes vs pops"),
+        leg("ties", "c13_pq", (2, 2), {"pre": "50,51", "prog": "P52|G|G"}, what="equal priorities"),
+        leg("throw1", "c13_pq", (2, 3), {"pre": "50", "prog": "P90|P91|G", "throwat": 1}, what="first element copy throws"),
+        leg("throw2", "c13_pq", (2, 3), {"pre": "50", "prog": "P90|P91|G", "throwat": 2}, what="second element copy throws"),
+        leg("throw-batch", "c13_pq", (2, 2), {"pre": "50,70", "prog": "P90,G|P91|G", "throwat": 1}, what="throwing push batched with pops"),
+    ],
+}
+# ------------------------------------------------------------------------------------------------ C10
+PROPS["C10"] = {
+    "explanation": "2-3 threads insert/emplace/find/count/erase (by key and by accessor) on one real concurrent_hash_map with identity, constant and low-bit "
+                   "hashers, on keys chosen as parent/child buckets of a split and on tables pre-filled to a growth threshold; every history (plus the sequential "
+                   "final reads) is checked by brute force against std::map; accessor exclusivity by bookkeeping and a destruction canary in the mapped value.",
+    "legs": [
+        leg("ins-ins-find", "c10_chm", (2, 3), {"prog": "I3|I3|F3"}, what="two inserts of one absent key + find"),
+        leg("era-era-find", "c10_chm", (2, 3), {"prog": "E3|E3|F3", "prekeys": "3"}, what="two erases of one present key + find"),
+        leg("split-pair", "c10_chm", (2, 2), {"prog": "I3|I259|F3,F259"}, what="keys that are parent/child buckets of a split"),
+        leg("accessors", "c10_chm", (2, 3), {"prog": "J3|A3|R3", "prekeys": "3"}, what="accessor vs accessor vs const_accessor on one element"),
+        leg("erase-by-accessor", "c10_chm", (2, 2), {"prog": "X3|A3|I3", "prekeys": "3"}, what="erase(accessor) vs accessor vs re-insert"),
+        leg("readers-eraser", "c10_chm", (2, 2), {"prog": "R3|R3|E3", "prekeys": "3"}, what="two const_accessors vs erase"),
+        leg("grow-255", "c10_chm", (2, 2), {"prog": "I1|I2|I3,F1", "pre": 254}, what="inserts cross the 255-element growth threshold", weight=2.0),
+        leg("grow-rehash", "c10_chm", (2, 2), {"prog": "I259,E3|F3|E259,I3", "prekeys": "3", "pre": 254}, what="lazy rehash of a child bucket races insert/erase in its parent", weight=2.0),
+        leg("const-hash", "c10_chm", (2, 2), {"prog": "I5|E9|F5,F9", "hash": "const", "prekeys": "9"}, what="everything in one bucket"),
+        leg("low2-hash", "c10_chm", (2, 2), {"prog": "I4,I8|E12|C4,C8", "hash": "low2", "prekeys": "12"}, what="hash keeps only two low bits"),
+        leg("emplace-count", "c10_chm", (2, 2), {"prog": "M7|M7|C7,E7"}, what="emplace twice, count, erase"),
+        leg("first-insert", "c10_chm", (2, 2), {"prog": "I0|I1|I2"}, what="three first inserts into an empty table (first segment enable)"),
+    ],
+}
+
+# ------------------------------------------------------------------------------------------------ C11
+PROPS["C11"] = {
+    "explanation": "2-3 threads call push_back/emplace_back/grow_by/grow_to_at_least on one real concurrent_vector (tracking allocator, element type with "
+                   "per-address construction counters) from start sizes 0, 1, 2, 3, 7, 8 (first-block election, embedded-table limit); oracle: returned ranges are "
+                   "disjoint and tile [0,size()), values and addresses are right, every element constructed once inside allocated memory; fault legs throw from the "
+                   "k-th constructor / allocation; a sequential leg enumerates the index-to-segment arithmetic for all indices < 2^20 and around every 2^k.",
+    "legs": [
+        leg("grow-from-0", "c11_vector", (2, 3), {"prog": "B|G3|L9"}, what="first-block election; push_back vs grow_by(3) vs grow_to_at_least(9)"),
+        leg("grow-from-7", "c11_vector", (2, 2), {"prog": "B|G3|L9", "pre": 7}, what="crossing the embedded table limit (8 elements)"),
+        leg("push-emplace", "c11_vector", (2, 3), {"prog": "B,B|E|G2", "pre": 1}, what="single-element growth from size 1"),
+        leg("two-grow", "c11_vector", (2, 2), {"prog": "G5|G9|B", "pre": 3}, what="two multi-segment grow_by calls"),
+        leg("grow-zero", "c11_vector", (2, 2), {"prog": "G0,B|D2|G1", "pre": 2}, what="grow_by(0), default-constructed grow_by"),
+        leg("atleast-two", "c11_vector", (2, 2), {"prog": "L4|L6|B", "pre": 0}, what="two grow_to_at_least calls from empty"),
+        leg("pow2-edges", "c11_vector", (2, 2), {"prog": "G1|G2|B", "pre": 15}, what="start at 2^k-1: ranges straddle a segment boundary"),
+        leg("pow2-edges16", "c11_vector", (2, 2), {"prog": "G1|G3|E", "pre": 16}, what="start at 2^k"),
+        leg("throw-ctor2", "c11_vector", (2, 2), {"prog": "B|G3|B", "throwat": 2}, what="second element construction throws"),
+        leg("throw-ctor3", "c11_vector", (2, 2), {"prog": "G3|G2|B", "throwat": 3, "pre": 1}, what="third element construction throws (inside a grow_by)"),
+        leg("alloc-fail1", "c11_vector", (2, 2), {"prog": "B|G3|B", "allocfail": 1}, what="first allocation in the window throws"),
+        leg("alloc-fail2", "c11_vector", (2, 2), {"prog": "B|G9|B", "allocfail": 2, "pre": 2}, what="second allocation throws"),
+        leg("alloc-fail-table", "c11_vector", (2, 2), {"prog": "G3|G9|B", "allocfail": 3, "pre": 6}, what="allocation failure around the long-table switch"),
+        leg("segment-arithmetic", "c11_segarith", (0, 0), {}, flags=(), what="bijection of segment_index_of/segment_base/segment_size: all indices < 2^20, +-2 around every 2^k up to 2^63"),
+    ],
+}
+
+# ------------------------------------------------------------------------------------------------ C12
+PROPS["C12"] = {
+    "explanation": "2-3 threads insert/emplace/find/count/contains and traverse one real container of each family (split-ordered hash list: unordered map/set/multimap/"
+                   "multiset with identity and constant hashers, pre-filled to the bucket-doubling threshold; skip list: map/set/multimap/multiset instantiated with a "
+                   "level generator whose levels are a leg parameter, plus the stock concurrent_map with its own generator under a frozen clock). Oracles: brute-force "
+                   "linearizability of insert/find/count against a (multi)set, final contents = union of successful inserts, traversal sees every element present before "
+                   "it began exactly once and no element more often than it can exist, ordered containers iterate in comparator order.",
+    "legs": [
+        leg("umap-same-key", "c12_assoc", (2, 3), {"kind": "umap", "prog": "I7|I7|T"}, what="two inserts of one key + traversal", weight=2.0),
+        leg("umap-one-bucket", "c12_assoc", (2, 3), {"kind": "umap", "hash": "const", "prekeys": "3,5", "prog": "I7|I9|T,F7"}, what="constant hash: all keys adjacent in split order"),
+        leg("umap-doubling", "c12_assoc", (2, 2), {"kind": "umap", "pre": 32, "prog": "I8|I16|T"}, what="window crosses the 32-element table doubling; lazy init_bucket", weight=2.0),
+        leg("uset-doubling", "c12_assoc", (2, 2), {"kind": "uset", "pre": 32, "prog": "I8,F8|M24|N8,T"}, what="set: doubling + find/contains", weight=2.0),
+        leg("ummap-equal", "c12_assoc", (2, 2), {"kind": "ummap", "prog": "I7|I7|C7,T"}, what="multimap: equal keys from two threads", weight=3.0),
+        leg("umset-equal", "c12_assoc", (2, 2), {"kind": "umset", "prekeys": "7", "prog": "I7|M7|C7"}, what="multiset: many equivalent keys"),
+        leg("umap-adjacent", "c12_assoc", (2, 2), {"kind": "umap", "prekeys": "1", "prog": "I9|I17|F9,F17"}, what="keys that fall into one bucket chain (same low bits)"),
+        leg("omap-same-key", "c12_assoc", (2, 3), {"kind": "omap", "prekeys": "3,9", "lv": "1231", "prog": "I7|I7|T"}, what="skip list: same key, mixed levels"),
+        leg("omap-neighbours", "c12_assoc", (2, 3), {"kind": "omap", "prekeys": "3,9", "lv": "3212", "prog": "I5|I6|T,F5"}, what="skip list: adjacent keys share predecessors on several levels"),
+        leg("omap-tall", "c12_assoc", (2, 2), {"kind": "omap", "prekeys": "1,9", "lv": "3333", "prog": "I5|I4|N5,T"}, what="all nodes tall"),
+        leg("ommap-equal", "c12_assoc", (2, 2), {"kind": "ommap", "lv": "2132", "prog": "I7|I7|C7,T"}, what="multimap skip list: equal keys"),
+        leg("oset-mixed", "c12_assoc", (2, 2), {"kind": "oset", "lv": "1312", "prekeys": "2,8", "prog": "I5,F5|I6|N6,T"}, what="set skip list"),
+        leg("omset-equal", "c12_assoc", (2, 2), {"kind": "omset", "lv": "1312", "prekeys": "5", "prog": "I5|I5|C5,T"}, what="multiset skip list"),
+        leg("cmap-stock", "c12_assoc", (2, 2), {"kind": "cmap", "prekeys": "3,9", "prog": "I7|I7|T"}, what="stock tbb::concurrent_map (own level generator, frozen clock)"),
+    ],
+}
+
+# ------------------------------------------------------------------------------------------------ C19
+PROPS["C19"] = {
+    "explanation": "enumerable_thread_specific / combinable: 2-3 threads call local() for the first time (and again) while 0, 2 or 4 other threads are already "
+                   "registered, so the window crosses the table doublings; oracle: distinct stable addresses, one initialiser call per thread, iteration/combine "
+                   "visit each element once. collaborative_call_once legs: see the call_once harness.",
+    "legs": [
+        leg("ets-fresh3", "c19_ets", (2, 3), {"n": 3}, what="three first accesses on an empty container (third triggers growth)"),
+        leg("ets-pre2", "c19_ets", (2, 3), {"pre": 2, "n": 2}, what="two registered, two new (growth at the third)"),
+        leg("ets-pre4", "c19_ets", (2, 3), {"pre": 4, "n": 2}, what="four registered, two new (growth at the fifth)"),
+        leg("ets-pre2-n3", "c19_ets", (2, 2), {"pre": 2, "n": 3}, what="two registered, three new"),
+        leg("ets-key", "c19_ets", (2, 3), {"kind": "ets_key", "pre": 2, "n": 2}, what="ets_key_per_instance (native TLS key) variant"),
+        leg("combinable", "c19_ets", (2, 2), {"kind": "comb", "pre": 2, "n": 3}, what="combinable: combine / combine_each"),
+    ],
+}
